@@ -89,6 +89,8 @@ func (i *interpreter) runMain(fn *ssa.Function) {
 	i.shadows = nil
 	i.mutexes = nil
 	i.atomics = nil
+	i.elemOf = nil
+	i.addrs = nil
 	call(i, nil, token.NoPos, fn, nil)
 	// the harness returned: remaining threads are abandoned (like process exit)
 	i.killThreads()
